@@ -770,7 +770,7 @@ func verifC16SortedModelRows(st verifC16State, u int) []UserChannelMembership {
 func (sm *verifC16SM) actScan(rt *rapid.T) {
 	u := rapid.IntRange(0, len(verifC16Users)-1).Draw(rt, "scanUser")
 	usr := verifC16Users[u]
-	pageSize := rapid.IntRange(1, 7).Draw(rt, "pageSize")
+	pageSize := rapid.SampledFrom([]int{1, 1, 1, 2, 2, 3, 4, 5, 6, 7}).Draw(rt, "pageSize")
 	viaStore := rapid.Bool().Draw(rt, "scanViaStore")
 	var others []int
 	for i := range verifC16Users {
